@@ -8,7 +8,7 @@ import cvlib
 if not hasattr(cvlib, 'QUICK_FILTER'):
     cvlib.QUICK_FILTER = {}
 cvlib.QUICK_FILTER['C10'] = [
-    r'C01\.O2\.execute_next\..*', r'C01\.O2\.event_waiters', r'C01\.O3\.api\.clear',
+    r'C01\.O2\.execute_next\..*', r'C01\.O2\.event_waiters\..*', r'C01\.O3\.api\.clear',
     r'C02\.L3\.(grow|enqueue_nogrow|dequeue|initialize)\.cap2',
     r'C20\.O1\.expand\..*', r'C20\.O2\.alloc_free\.sz8', r'C20\.O1\.static_pool',
     r'C18\.O6\..*', r'C18\.O2\.copy_ts_then_add', r'C18\.O2\.copy_ts_n3', r'C18\.O3\.ds_fivenum_n1', r'C18\.O4\.(ts_)?auto_const_n2', r'C14\.O3\.ts_add_.*',
@@ -21,5 +21,5 @@ cvlib.QUICK_FILTER['C10'] = [
 if not hasattr(cvlib, 'FULL_GROUPS'):
     cvlib.FULL_GROUPS = {}
 cvlib.FULL_GROUPS['C10'] = [r'C20\.O1\.expand\..*', r'C02\.L3\.(grow|initialize)\.cap2', r'C18\.O6\..*', r'C14\.O3\.ts_add_.*', r'C18\.O2\.copy_.*',
-                            r'C01\.O2\.execute_next\..*', r'C01\.O2\.event_waiters']
+                            r'C01\.O2\.execute_next\..*', r'C01\.O2\.event_waiters\..*']
 GROUPS = []
